@@ -75,10 +75,33 @@ func buildSliceIndex(decls []string, owner map[string]string, axioms []axiomTerm
 }
 
 // smtText: declarations transitively referenced by the obligation, its assumptions, and the negated goal
+var reExists2 = regexp.MustCompile(`\(exists \(\([^()]*\) \(`)
+
 var reRangeFact = regexp.MustCompile(`^\(and \(<= (\(- \d+\)|0) .*\) \(<= .* \d+\)\)$`)
 
 func isRangeFact(p string) bool {
 	return reRangeFact.MatchString(p) && !strings.Contains(p, "forall") && !strings.Contains(p, "exists")
+}
+
+// smtTextLight: additionally drops hypotheses with nested existentials (expensive for the solvers, rarely needed);
+// dropping hypotheses is always sound
+func (ix *sliceIndex) smtTextLight(o *Oblig) string {
+	var pre []string
+	for _, p := range o.Pre {
+		if isRangeFact(p) && !strings.HasPrefix(o.Kind, "safety/overflow") {
+			continue
+		}
+		if strings.Count(p, "(exists ") >= 2 || reExists2.MatchString(p) {
+			continue
+		}
+		pre = append(pre, p)
+	}
+	if len(pre) == len(o.Pre) {
+		return ""
+	}
+	o2 := *o
+	o2.Pre = pre
+	return ix.smtText(&o2, false)
 }
 
 func (ix *sliceIndex) smtText(o *Oblig, pruned bool) string {
@@ -268,6 +291,17 @@ func runOne(ctx context.Context, bin string, args []string) (string, string) {
 
 // solveVariants: a discharge of the pruned query (fewer assumptions) is a discharge of the obligation
 func (sv *Solver) solveVariants(pruned, full string, canary bool) SolveResult {
+	return sv.solveVariants3("", pruned, full, canary)
+}
+
+func (sv *Solver) solveVariants3(light, pruned, full string, canary bool) SolveResult {
+	if !canary && light != "" && light != pruned {
+		r := sv.solveWith(light, false, 4)
+		if r.Status == "unsat" {
+			r.Solver += "(light)"
+			return r
+		}
+	}
 	if canary || pruned == full {
 		return sv.solve(full, canary)
 	}
